@@ -118,6 +118,10 @@ func (s gatedSess) Delete(id string) error {
 	s.g.at("sess.delete")
 	return s.SessionMetadatasState.Delete(id)
 }
+func (s gatedSess) All() []api.SessionMetadatas {
+	s.g.at("sess.all")
+	return s.SessionMetadatasState.All()
+}
 func (s gatedSess) ByClientID(clientID string, mountPoint string) (api.SessionMetadatas, error) {
 	s.g.at("sess.byclientid")
 	return s.SessionMetadatasState.ByClientID(clientID, mountPoint)
